@@ -1,6 +1,7 @@
 import Driver.Util
 import ClairModel.Model.Match
 import ClairModel.Model.MatchProto
+import ClairModel.Model.EnrichProto
 
 /-!
   Line-protocol driver of the C05 functional model.
@@ -32,6 +33,8 @@ structure Scenario where
   enrichers : List Enricher := []
   /-- state of the protocol machine (lines starting with `p`) -/
   proto : ClairModel.MatchProto.State := ClairModel.MatchProto.init 1 []
+  /-- state of the enrichment-phase machine (lines starting with `e`) -/
+  eproto : ClairModel.EnrichProto.State := ClairModel.EnrichProto.init 1 []
 
 /-! ### the stub store (go/internal/c05 `stubStore.Get`) -/
 
@@ -182,6 +185,25 @@ def parseProtoOp (ws : List String) : Option ClairModel.MatchProto.Op :=
   | ["cancelParent"] => some .cancelParent
   | _ => none
 
+def parseEnrichOp (ws : List String) : Option ClairModel.EnrichProto.Op :=
+  match ws with
+  | ["handoff", w] => w.toNat?.map .handoff
+  | ["senderBreak"] => some .senderBreak
+  | ["closeE"] => some .closeE
+  | ["enrich", w, b] => do pure (.enrich (← w.toNat?) ((← b.toNat?) != 0))
+  | ["sendR", w] => w.toNat?.map .sendR
+  | ["workerCancel", w] => w.toNat?.map .workerCancel
+  | ["workerExit", w] => w.toNat?.map .workerExit
+  | ["collect"] => some .collect
+  | ["collectorEnd"] => some .collectorEnd
+  | ["cancelParent"] => some .cancelParent
+  | _ => none
+
+def renderEOut : ClairModel.EnrichProto.Out → String
+  | .ok => "ok"
+  | .disabled => "disabled"
+  | .panic => "panic"
+
 def renderOut : ClairModel.MatchProto.Out → String
   | .ok => "ok"
   | .disabled => "disabled"
@@ -202,6 +224,18 @@ def stepLine (s : Scenario) (l : String) : Scenario × String :=
       let (p', o) := ClairModel.MatchProto.step s.proto op
       ({ s with proto := p' }, renderOut o)
     | none => (s, "bad-op")
+  | ["e-init", lim, n] =>
+    match lim.toNat?, n.toNat? with
+    | some lim, some n => ({ s with eproto := ClairModel.EnrichProto.init lim (List.range n) }, "ok")
+    | _, _ => (s, "bad-op")
+  | "e" :: ws =>
+    match parseEnrichOp ws with
+    | some op =>
+      let (p', o) := ClairModel.EnrichProto.step s.eproto op
+      ({ s with eproto := p' }, renderEOut o)
+    | none => (s, "bad-op")
+  | ["e-final"] =>
+    (s, s!"final={b01 (ClairModel.EnrichProto.final s.eproto)} err={b01 s.eproto.workerErr} collected={s.eproto.collected.length} skipped={s.eproto.skipped.length}")
   | ["p-final"] =>
     (s, s!"final={b01 (ClairModel.MatchProto.final s.proto)} err={b01 s.proto.senderErr} collected={s.proto.collected.length}")
   | ["pkg", k, i, n] =>
